@@ -67,6 +67,18 @@ func runSeq(mode readerMode, img []byte, cfg scen.Cfg, del scen.Delivery, fault 
 		}
 		res.panic = lr.Panic
 		res.srcStats = src.St
+	case "lexer_seek":
+		// a seekable source and no attachment callback: attachment bodies are skipped with Seek
+		src := simdisk.NewSeekSource(img, del, fault)
+		lr := drive.LexAll(src, drive.LexSpec{Custom: true, SkipMagic: cfg.SkipMagic, MaxTokens: 200000})
+		res.recs = contentRecs(lr.Recs)
+		res.terminal = lr.Terminal()
+		res.err = lr.Err
+		if lr.NewErr != nil {
+			res.err = lr.NewErr
+		}
+		res.panic = lr.Panic
+		res.srcStats = src.St
 	case "scan":
 		src := simdisk.NewSource(img, del, fault)
 		ir := drive.ReadMessages(src, drive.ReadSpec{UseIndex: false, MetaCB: true, MaxMsgs: 200000})
